@@ -88,6 +88,8 @@ func VxB_Faults() {
 	vxOptNoMinFresh, vxOptNoReqSIE = true, true
 	q, qs := vxReqCCBuild("req")
 	req := vxGET(http.Header{"Cache-Control": []string{qs}})
+	// a request the cache answers itself, or an unsafe one it forwards and invalidates for
+	req.Method = [...]string{"GET", "POST"}[vxChoice("req.method", 2)]
 	originErrs := 0
 	var last *http.Response
 	w.origin.script = func(n int, r *http.Request) (*http.Response, error) {
